@@ -101,6 +101,12 @@ def run(ctx):
                   for s in (-12, -6, -4, 0, 4, 6, 12)]
         cfgs = [c for c in ctx.corpus if not (c.get("synthetic") or c.get("sweep"))] + \
                [tu.gen_config(ctx.rng) for _ in range(12 if ctx.quick() else 150)]
+        for i in range(5 if ctx.quick() else 50):
+            # a covariance floor that really zeroes entries: P, the log-determinants and the traces must all refer to
+            # the RETURNED (filtered) matrices
+            cfg = tu.gen_config(ctx.rng)
+            cfg.update({"eps": [0.02, 0.05, 0.2][i % 3], "lam": [0.0, 0.01, 0.05][i % 3]})
+            cfgs.append(cfg)
 
     # ---------------- (a) synthetic: count exact, value 1e-9
     thr_line = ctx.driver.run(["bicthreshold"])[0]
@@ -194,6 +200,8 @@ def run(ctx):
             ctx.violation("impl-violation", f"reported BIC {got} != definition {want} recomputed from the final model",
                           cfg, {"site": "bic-value"})
         ctx.count("runs_checked")
+        if cfg.get("eps"):
+            ctx.count("runs_with_floor")
         runs = 1 + sum(1 for a, b in zip(labels, labels[1:]) if a != b)
         ctx.case(("cfg", repr(sorted(cfg.items()))), nontrivial=runs >= 2,
                  sample={"T": len(labels), "runs": runs, "P": P, "bic": got} if len(ctx.samples) < 6 else None)
